@@ -94,7 +94,39 @@ def _check_tmana(c, tmp):
             if not np.any(np.linalg.norm(gg - v, axis=1) <= c["diam"]):
                 thr = float(scores[tuple(v)])
                 break
-    m, e = call(tmana.scores_extract_particles, scores, amap, arg, 5, c["diam"], scores_threshold=thr, angles_order=c["order"], angles_numbering=base)
+    # run-time monitor of the REQUIRES of the two block contracts (contracts/c07.py: TmanaSuppression, TmanaBookkeeping): the candidate list
+    # built by the function's prefix (threshold, np.where, argpartition / argsort, sorted) is observed when the suppression block starts
+    import sys
+    seen = {}
+
+    def tracer(frame, ev, a):
+        if frame.f_code.co_name != "scores_extract_particles":
+            return None
+
+        def local(fr, ev2, a2):
+            if ev2 == "line" and "scored_coords" in fr.f_locals and "tree" not in fr.f_locals and "cands" not in seen:
+                seen["cands"] = [(tuple(int(v) for v in cc), float(ss)) for cc, ss in fr.f_locals["scored_coords"]]
+                seen["threshold"] = float(fr.f_locals["threshold"])
+            return local
+        return local
+    sys.settrace(tracer)
+    try:
+        m, e = call(tmana.scores_extract_particles, scores, amap, arg, 5, c["diam"], scores_threshold=thr, angles_order=c["order"], angles_numbering=base)
+    finally:
+        sys.settrace(None)
+    if "cands" in seen:
+        cs = seen["cands"]
+        if seen["threshold"] != thr:
+            return {"what": "requires of the suppression block: threshold used is not the given one"}
+        if any(cs[i][1] < cs[i + 1][1] for i in range(len(cs) - 1)):
+            return {"what": "requires of the suppression block: candidates not sorted by decreasing score"}
+        if len(set(cc for cc, _ in cs)) != len(cs):
+            return {"what": "requires of the suppression block: candidate coordinates not pairwise different"}
+        want = set(map(tuple, np.argwhere(scores > thr)))
+        if set(cc for cc, _ in cs) != want:
+            return {"what": "requires of the suppression block: candidates are not exactly the voxels above the threshold", "got": len(cs), "expected": len(want)}
+        if any(abs(ss - scores[cc]) > 1e-12 for cc, ss in cs):
+            return {"what": "requires of the suppression block: candidate does not carry its voxel's score"}
     if e is not None:
         return {"raised": f"scores_extract_particles {type(e).__name__}: {e}"}
     supra = np.argwhere(scores > thr)
